@@ -9,8 +9,10 @@ Full statement (properties.jsonl): every store operation leaves the lock release
 path; under any interleaving of threads importing graphs / creating nodes no node is lost, no internal id is
 handed out twice, each graph ends up with exactly the nodes added to it.  Both halves are proved at full
 strength on the models (Part A: all paths of every method skeleton regenerated from the source; Part B: all
-thread counts, all accepted programs, all schedules); what stays outside is named in the property's
-`TRUSTED_BASE` (preemption inside a source line, the no-raise whitelist, symbol instantiation).
+thread counts, all accepted programs, all schedules, with thread switches between source lines and — through the expansion of
+every micro-instruction into atoms, `Lemmas/C20Fine.lean` — between single dictionary / attribute operations); what stays
+outside is named in the property's `TRUSTED_BASE` (the GIL making one atom atomic, the no-raise whitelist, symbol
+instantiation for the discipline monitor).
 
 Part A (this section): every path of every store method — any branch, any number of loop
 iterations, an exception at any statement not on the translator's short no-raise whitelist —
